@@ -71,7 +71,7 @@ structure GenCfg where
   copyEmptyPtrCollDropped : Bool := true
   /-- `true` (original library): without a buffer AssignToStr renders a scalar *behind* the old content
       of the destination string (`Assign(&"abc", 5)` yields "abc5"). -/
-  strAppendsOld : Bool := true
+  strAppendsOld : Bool := false   -- repaired in /repo (fix: AssignToStr without a buffer …)
   /-- `true` (original emitter): in set mode the leaf assignment of a scalar slice element, and of a field
       of a struct held by value in a map, is followed by `return nil` before the write-back
       (`s[i] = x`, `m[k] = x`): the update is made to a local copy and lost. -/
@@ -100,6 +100,8 @@ deriving Repr, Inhabited
 
 /-- The configuration that mirrors the tree as it is (flags flip when a `fix:` commit lands). -/
 def GenCfg.repo : GenCfg := {}
+/-- The tree as it was at the pinned commit (1c76ae3), before the `fix:` commits in /repo. -/
+def GenCfg.original : GenCfg := { GenCfg.repo with strAppendsOld := true }
 /-- Every listed defect repaired: the configuration the property theorems are proved for. -/
 def GenCfg.fixed : GenCfg where
   fallThroughAlways := false
